@@ -148,7 +148,123 @@ def _merge(a, b):
     return d
 
 
+def check_point_add_cases(ctx, oid_split="C03.3", oid_formula="C03.4"):
+    """The group law's case split, decided per case on operands of known SHAPE (None, or a pair of arbitrary coordinates): the
+    function is evaluated with the two relations that define the cases -- x1 == x2 and y1 == y2 -- fixed, and every test the
+    code makes (p1 == p2, p1 == (x2, -y2 % p), x1 == x2 and y1 != y2, (y1 + y2) % p == 0, a `match` with guards ...) is
+    answered from those two. For points of the curve with equal x the y coordinates are equal or opposite (y = 0 is not on
+    secp256k1). Returns False when the evaluation is not decided this way (the caller then reads the branches structurally)."""
+    R = ctx.R
+    fi = ctx.fn(PADD)
+    ev = ctx.evaluator()
+    X1, Y1, X2, Y2 = P("x1", tm.INT), P("y1", tm.INT), P("x2", tm.INT), P("y2", tm.INT)
+    pa, pb = fi.params()[0], fi.params()[1]
+
+    def seq2(t):
+        t = rules.unfz(t)
+        return list(t) if isinstance(t, (list, tuple)) and len(t) == 2 else None
+
+    def neg_of(u, w):  # u is the negation mod p of w
+        return polynf(u, Pp) == polynf(tm.mul([-1, w]), Pp)
+
+    def valuation(A, B):
+        def comp_eq(u, w):
+            u, w = rules.unfz(u), rules.unfz(w)
+            if tm.veq(u, w):
+                return True
+            for a_, b_ in ((u, w), (w, u)):
+                if tm.veq(a_, X1) and tm.veq(b_, X2):
+                    return A
+                if tm.veq(a_, Y1) and tm.veq(b_, Y2):
+                    return B
+                if (tm.veq(a_, Y1) and isinstance(b_, T) and neg_of(b_, Y2)) or (tm.veq(a_, Y2) and isinstance(b_, T) and neg_of(b_, Y1)):
+                    return (not B) if A else None
+            return None
+
+        def fn(c):
+            if not (isinstance(c, T) and c.op == "cmp"):
+                return None
+            kind, a, b = c.args[0], rules.unfz(c.args[1]), rules.unfz(c.args[2])
+            if kind in ("is", "isnot") and (a is None or b is None):
+                other = b if a is None else a
+                if seq2(other) is not None:
+                    return kind == "isnot"
+                return None
+            if kind not in ("eq", "ne"):
+                return None
+            sa_, sb_ = seq2(a), seq2(b)
+            r = None
+            if sa_ is not None and sb_ is not None:
+                parts = [comp_eq(u, w) for u, w in zip(sa_, sb_)]
+                r = False if any(x is False for x in parts) else (True if all(x is True for x in parts) else None)
+            elif sa_ is None and sb_ is None:
+                r = comp_eq(a, b)
+                if r is None:
+                    for u, w in ((a, b), (b, a)):
+                        if w == 0 and isinstance(u, T) and polynf(u, Pp) == polynf(tm.add([Y1, Y2]), Pp):
+                            r = (not B) if A else None  # (y1 + y2) % p == 0
+                        if w == 0 and isinstance(u, T) and polynf(u, Pp) == polynf(tm.sub(X1, X2), Pp):
+                            r = A
+                        if w == 0 and isinstance(u, T) and polynf(u, Pp) == polynf(tm.sub(Y1, Y2), Pp):
+                            r = B
+            if r is None:
+                return None
+            return r if kind == "eq" else (not r)
+        return fn
+
+    def run(a, b, A=None, B=None):
+        ev.assume_fn = valuation(A, B) if A is not None else None
+        out = rules.decided_outcome(ev.run(fi, {pa: a, pb: b}, use_defaults=True))
+        ev.assume_fn = None
+        return out
+    Pt, Qt = (X1, Y1), (X2, Y2)
+    res = {"inf+Q": run(None, Qt), "P+inf": run(Pt, None), "neg": run(Pt, Qt, True, False), "dbl": run(Pt, Qt, True, True),
+           "gen_y_ne": run(Pt, Qt, False, False), "gen_y_eq": run(Pt, Qt, False, True)}
+    if any(k == "undecided" for k, _v in res.values()):
+        return False
+
+    def point(v):
+        v = rules.unfz(v)
+        return list(v) if isinstance(v, (list, tuple)) and len(v) == 2 else None
+    k, v = res["inf+Q"]
+    R.check(oid_split, "DECISION-TABLE", fi, "inf + Q = Q", k == "return" and point(v) is not None and tm.veq(point(v)[0], X2) and tm.veq(point(v)[1], Y2), "with p1 the identity point_add gives %s %s, not p2" % (k, tm.show(v)[:80]))
+    k, v = res["P+inf"]
+    R.check(oid_split, "DECISION-TABLE", fi, "P + inf = P", k == "return" and point(v) is not None and tm.veq(point(v)[0], X1) and tm.veq(point(v)[1], Y1), "with p2 the identity point_add gives %s %s, not p1" % (k, tm.show(v)[:80]))
+    k, v = res["neg"]
+    R.check(oid_split, "DECISION-TABLE", fi, "P + (-P) = inf (equal x, opposite y)", k == "return" and v is None,
+            "with x1 == x2 and y1 == -y2 point_add gives %s %s, not the identity" % (k, tm.show(v)[:80]), example="adding a point to its negation")
+    lam_c = tm.mul([tm.sub(Y2, Y1), T("powmod", (tm.mod(tm.sub(X2, X1), Pp), Pp - 2, Pp), tm.INT)])
+    wx_c = tm.add([tm.mul([lam_c, lam_c]), tm.mul([-1, X1]), tm.mul([-1, X2])])
+    wy_c = tm.add([tm.mul([lam_c, tm.sub(X1, wx_c)]), tm.mul([-1, Y1])])
+    for name, what in (("gen_y_ne", "distinct x, distinct y"), ("gen_y_eq", "distinct x, EQUAL y")):
+        k, v = res[name]
+        pt = point(v) if k == "return" else None
+        R.check(oid_split, "DECISION-TABLE", fi, "generic case (%s) returns a point" % what, pt is not None,
+                "with %s point_add gives %s %s" % (what, k, tm.show(v)[:80]), example="two distinct points with the same y coordinate (x, y) and (beta*x, y)" if name == "gen_y_eq" else None)
+        if pt is not None:
+            R.check(oid_formula, "TERM-EQ", fi, "chord x3 = l^2 - x1 - x2 (%s)" % what, polynf(pt[0], Pp) == polynf(wx_c, Pp), "chord x-coordinate formula differs for %s" % what,
+                    example="two distinct points with the same y coordinate" if name == "gen_y_eq" else None)
+            R.check(oid_formula, "TERM-EQ", fi, "chord y3 = l(x1 - x3) - y1 (%s)" % what, polynf(pt[1], Pp) == polynf(wy_c, Pp), "chord y-coordinate formula differs for %s" % what)
+            for c_ in pt:
+                R.check(oid_formula, "INTERVAL", fi, "chord result coordinate within [0, p-1]", ival.subset(ival.ivals(c_, []), 0, Pp - 1), "a result coordinate can leave [0, p-1]")
+    k, v = res["dbl"]
+    pt = point(v) if k == "return" else None
+    R.check(oid_split, "DECISION-TABLE", fi, "doubling case p1 == p2 returns a point", pt is not None, "with p1 == p2 point_add gives %s %s" % (k, tm.show(v)[:80]))
+    if pt is not None:
+        same = lambda t: X1 if isinstance(t, T) and tm.veq(t, X2) else (Y1 if isinstance(t, T) and tm.veq(t, Y2) else None)  # noqa: E731
+        xr, yr = tm.subst(pt[0], same), tm.subst(pt[1], same)
+        lam = tm.mul([tm.add([tm.mul([3, X1, X1]), 0]), T("powmod", (tm.mod(tm.mul([2, Y1]), Pp), Pp - 2, Pp), tm.INT)])
+        wx = tm.add([tm.mul([lam, lam]), tm.mul([-2, X1])])
+        R.check(oid_formula, "TERM-EQ", fi, "tangent x3 = l^2 - 2x", polynf(xr, Pp) == polynf(wx, Pp), "doubling x-coordinate formula differs (or the chord formula is used for p1 == p2)", example="P + P")
+        wy = tm.add([tm.mul([lam, tm.sub(X1, wx)]), tm.mul([-1, Y1])])
+        R.check(oid_formula, "TERM-EQ", fi, "tangent y3 = l(x - x3) - y", polynf(yr, Pp) == polynf(wy, Pp), "doubling y-coordinate formula differs")
+    return True
+
+
 def check_point_add(ctx, oid_split="C03.3", oid_formula="C03.4"):
+    if check_point_add_cases(ctx, oid_split, oid_formula):
+        _check_negate_on_curve(ctx, oid_formula)
+        return
     R = ctx.R
     fi = ctx.fn(PADD)
     ev = ctx.evaluator()
@@ -244,6 +360,12 @@ def check_point_add(ctx, oid_split="C03.3", oid_formula="C03.4"):
                 example="P + P")
         wy = tm.add([tm.mul([lam, tm.sub(x1, wx)]), tm.mul([-1, y1])])
         R.check(oid_formula, "TERM-EQ", fi, "tangent y3 = l(x - x3) - y", polynf(yr, Pp) == polynf(wy, Pp), "doubling y-coordinate formula differs")
+    _check_negate_on_curve(ctx, oid_formula)
+
+
+def _check_negate_on_curve(ctx, oid_formula):
+    R = ctx.R
+    ev = ctx.evaluator()
     # negate / on-curve
     fn = ctx.fn("bits.ecmath.point_negate")
     sn = ev.run(fn, use_defaults=True)
@@ -450,3 +572,6 @@ def run(ctx):
     want = tm.app(SMUL, [tm.b2i(kb, "big"), (GX, GY), 0, 7], ty=tm.TUPLE)
     got = s.value()
     R.check("C03.2", "TERM-EQ", fi, "public key = k*G", tm.veq(got, want), "compute_point: %s" % tm.first_diff(got, want))
+    # ... and is observed at bits.keys.pub(k) through its SEC1 serialisation: the encoder's layout (shared with C14)
+    from . import c14 as _c14
+    _c14.check_pubkey_encoder(ctx, "C03.2")
